@@ -46,7 +46,7 @@ type witness3 struct {
 func runConc(r *ev.Run, id caseID) {
 	g := newGen(id.Seed)
 	g.profile = 1
-	g.pool = []string{"/c/k0", "/c/k1", "/c/k*", "/c/d/k3", "/c/d/e/k4", "/c/k \"<"}
+	g.pool = []string{"/c/k0", "/c/k1", "/c/k*", "/c/d/k3", "/c/d/e/k4", "/c/k\u2028\"<"}
 	sm := kv.NewLFSM()(1, 1)
 	m := newCAS()
 	states := []*CAS{m.clone()}
@@ -98,7 +98,7 @@ func runConc(r *ev.Run, id caseID) {
 	var verdictSeen *verdict
 	var updErr error
 	idx := uint64(1)
-	batches := r.Pick(1200, 4000)
+	batches := r.Pick(1200, 2500)
 	applied := 0
 	var inPlace int
 	hist := map[string][]uint64{}
